@@ -404,6 +404,20 @@ func ruleMemoKeyComplete(c *Check, rule string, pkgs ...string) {
 			if strings.Contains(s, "global:") {
 				continue // process-wide configuration is ambient
 			}
+			// a field of the memo's own receiver that is only ever set when the object is constructed
+			if m.fn.Signature.Recv() != nil && len(m.fn.Params) > 0 && strings.HasPrefix(s, m.fn.Params[0].Name()+".") {
+				tkey := engine.TypeKey(m.fn.Params[0].Type())
+				fname := strings.TrimPrefix(s, m.fn.Params[0].Name()+".")
+				mutable := false
+				for _, w := range storesToField(c, engine.FieldKey{T: tkey, F: fname}) {
+					if !isConstructorOf(w.Parent(), tkey) {
+						mutable = true
+					}
+				}
+				if !mutable {
+					continue
+				}
+			}
 			if i := strings.Index(s, "."); i > 0 && sk[s[:i]] {
 				continue // the whole parameter is in the key
 			}
